@@ -106,7 +106,25 @@ def model_stdout(srcs, a, b):
     return bytes(out)
 
 
+VIA = ("c10", "c08", "c09")
+
+
 def run_case(seed, i, tier):
+    if i % 6 == 5:
+        # "for every kind of source": event logs, accounting records and journals are windowed by their own readers;
+        # their checks (independent evtx dump, generated records, journalctl) are run here too and reported under C03
+        name = VIA[(i // 6) % 3]
+        mod = __import__(name)
+        cr = mod.run_case(seed, i, tier)
+        cr.probes = type(cr.probes)({("via_%s:%s" % (name, k)): v for k, v in cr.probes.items()})
+        for v in cr.violations:
+            if v.replay is not None:
+                v.replay["via"] = name
+            v.known = None if name != "c08" or not (v.known or "").startswith("F-C08") else v.known
+        cr.violations = [v for v in cr.violations if v.known is None]
+        if isinstance(cr.sample, dict):
+            cr.sample["via"] = name
+        return cr
     rng = core.rng_for(seed, PROP, i)
     bsz, srcs, opts, a, b, form = gen_case(rng)
     expected = model_stdout(srcs, a, b)
@@ -151,6 +169,8 @@ def run_case(seed, i, tier):
 
 
 def classes_of(rp):
+    if rp.get("via"):
+        return __import__(rp["via"]).classes_of(rp)
     srcs = mergecheck.sources_from_json(rp["sources"])
     plan = core.Plan.from_json(rp["plan"])
     _, res = mergecheck.run_once(srcs, rp["opts"], plan)
@@ -170,7 +190,7 @@ RULE = ("one case = 1..3 generated chronological text logs (ties, ms/us precisio
         "only -b, A = B), written in a seed-chosen documented spelling and zone, with a seed-chosen block size; "
         "non-trivial = every run; distinct = scenario digest (content, window, options)")
 ASSUMPTIONS = ["bounds have at most microsecond precision (the documented grammar accepts 3 or 6 fractional digits)",
-               "accounting-record, journal and evtx windows are checked in C08 / C09 / C10 with their own instants"]
+               "one case in six runs the windowed accounting-record / journal / evtx cases of C08 / C09 / C10 (their own instants and independent readers) and reports under C03; C08's open findings F-C08b/F-C08c are not windows and are left to C08"]
 
 
 def main(tier):
